@@ -789,7 +789,11 @@ def encode_value(value):
     else:
         for cls,converter in ENCODE_CONVERTERS.items():
             if isinstance(value, cls):
-                return converter(value)
+                try:
+                    return converter(value)
+                except (OverflowError, OSError) as e:
+                    # E.g. float('inf') or datetime that can't be expressed as timestamp
+                    raise ValueError(f'Invalid value: {value!r}: {e}')
         raise ValueError(f'Invalid value: {value!r}')
 
 def encode_list(lst):
